@@ -995,3 +995,25 @@ package rapid
 //@ callback func() *Generator[V]
 //@   params fn
 //@   panics any: true
+
+// ---------------------------------------------------------------------------------------------
+// Package initialisation: the integer kind table must give every kind exactly the bounds of its Go type
+// (C18: a full-range generator whose table entry is narrower than the type can never produce the extreme).
+
+//@ func init
+//@   nosafety "package initialisation is only checked for the integer kind table"
+//@   panics any: true
+//@   noframe "initialises package variables"
+//@   after-store integerKindToInfo assert [C03,C18] integerKindToInfo["Int8"].signed && integerKindToInfo["Int8"].smin == math.MinInt8 && integerKindToInfo["Int8"].smax == math.MaxInt8
+//@   after-store integerKindToInfo assert [C03,C18] integerKindToInfo["Int16"].signed && integerKindToInfo["Int16"].smin == math.MinInt16 && integerKindToInfo["Int16"].smax == math.MaxInt16
+//@   after-store integerKindToInfo assert [C03,C18] integerKindToInfo["Int32"].signed && integerKindToInfo["Int32"].smin == math.MinInt32 && integerKindToInfo["Int32"].smax == math.MaxInt32
+//@   after-store integerKindToInfo assert [C03,C18] integerKindToInfo["Int64"].signed && integerKindToInfo["Int64"].smin == math.MinInt64 && integerKindToInfo["Int64"].smax == math.MaxInt64
+//@   after-store integerKindToInfo assert [C03,C18] integerKindToInfo["Int"].signed && integerKindToInfo["Int"].smin == math.MinInt64 && integerKindToInfo["Int"].smax == math.MaxInt64
+//@   after-store integerKindToInfo assert [C03,C18] !integerKindToInfo["Byte"].signed && integerKindToInfo["Byte"].umax == math.MaxUint8
+//@   after-store integerKindToInfo assert [C03,C18] !integerKindToInfo["Uint8"].signed && integerKindToInfo["Uint8"].umax == math.MaxUint8
+//@   after-store integerKindToInfo assert [C03,C18] !integerKindToInfo["Uint16"].signed && integerKindToInfo["Uint16"].umax == math.MaxUint16
+//@   after-store integerKindToInfo assert [C03,C18] !integerKindToInfo["Uint32"].signed && integerKindToInfo["Uint32"].umax == math.MaxUint32
+//@   after-store integerKindToInfo assert [C03,C18] !integerKindToInfo["Uint64"].signed && integerKindToInfo["Uint64"].umax == math.MaxUint64
+//@   after-store integerKindToInfo assert [C03,C18] !integerKindToInfo["Uint"].signed && integerKindToInfo["Uint"].umax == math.MaxUint64
+//@   after-store integerKindToInfo assert [C03,C18] !integerKindToInfo["Uintptr"].signed && integerKindToInfo["Uintptr"].umax == math.MaxUint64
+//@   modifies heap, published
